@@ -1,4 +1,7 @@
 import LentilVerif.Lemmas.Fft
+import LentilVerif.Lemmas.FftDft
+import Mathlib.Analysis.Real.Sqrt
+import LentilVerif.Lemmas.FftComplex
 import Mathlib.Tactic.FieldSimp
 import Mathlib.Tactic.Ring
 import Mathlib.Algebra.Order.Field.Rat
@@ -112,6 +115,82 @@ theorem reported_wavelength_isotropic {R : Type} [Field R] [RealLike R] [FftLike
   refine Prod.ext ?_ ?_
   · simp only; field_simp
   · simp only; rw [← hiso]; field_simp
+
+/-! ## The FFT path is the unitary DFT with alpha = 1/S, centred at floor(S/2), for even and odd grids -/
+section fftdft
+set_option linter.unusedSectionVars false
+variable {K R : Type} [Field R] [CharZero R] [RealLike R] [CommRing K] [CxLike K R]
+
+/-- **`_fft2` is `dft2` with `alpha = (1/S0, 1/S1)`.** `fftshift(fft2(ifftshift(x), norm='ortho'))` (NumPy contracts:
+unitary DFT with origin at index 0; rotations by `±floor(n/2)`) equals, at every output index and for grids of either
+parity, the unitary `dft2` of `x` with `alpha = 1/S` per axis, `S0 x S1` output samples, zero shift and offset — both
+origins at `floor(S/2)`. Hypotheses: `ofInt` is the integer cast, `exp(-2 pi i t/n)` is `n`-periodic in the integer `t`,
+and `1/sqrt(S0 S1) = sqrt|1/S0 · 1/S1|` for the model's `sqrt`/`abs` (all true of the real/complex functions). -/
+theorem fft_path_is_unitary_dft (hcast : ∀ n : Int, (RealLike.ofInt n : R) = (n : R)) (hper : RootPeriodic K R)
+    (x : Arr K) (hS0 : 0 < x.s0) (hS1 : 0 < x.s1)
+    (hnorm : (RealLike.ofInt 1 : R) / RealLike.sqrt (RealLike.ofInt (x.s0 * x.s1)) =
+      RealLike.sqrt (RealLike.abs (1 / (x.s0 : R) * (1 / (x.s1 : R))))) (u v : Int) :
+    (fft2c (R := R) x).get u v = (dft2 x (1 / (x.s0 : R)) (1 / (x.s1 : R)) x.s0 x.s1 0 0 0 0 true).get u v := by
+  simp only [fft2c, fft2Ortho, dft2, if_true]
+  rw [hnorm, fft_sum_eq_dft_sum hcast hper x hS0 hS1 u v]
+
+variable [FftLike R]
+
+/-- **FFT propagation = DFT propagation at the reported wavelength** (isotropic `dx·du`). Whenever `propagate_fft`
+answers, every sample of its output field equals the unitary `dft2` of the same padded input grid evaluated with the
+sampling ratio `alpha = dx·du/(lambda' z os)` computed from the wavelength `lambda'` it reports (grid-sized output, zero
+shift: what `propagate_dft` computes at `lambda'`). -/
+theorem fft_eq_dft_at_reported_wavelength (hcast : ∀ n : Int, (RealLike.ofInt n : R) = (n : R))
+    (hper : RootPeriodic K R) (hmin : ∀ a : R, FftLike.min a a = a)
+    (one : K) (fs : List (Fld K)) (W0 W1 : Int) (dx0 dx1 du0 du1 wl z : R) (os : Int)
+    (shape : Option (Int × Int)) (scratch : Option (Arr K)) (lam : R) (S0 S1 : Int) (so : Int × Int) (g : Fld K)
+    (h : propagateFft one fs false W0 W1 dx0 dx1 du0 du1 wl z os shape scratch = FftOut.ok lam S0 S1 so g)
+    (hiso : dx0 * du0 = dx1 * du1) (hp : dx0 * du0 ≠ 0) (hz : z ≠ 0) (hos : (os : R) ≠ 0) (hS : 0 < S0)
+    (hnorm : (RealLike.ofInt 1 : R) / RealLike.sqrt (RealLike.ofInt (S0 * S1)) =
+      RealLike.sqrt (RealLike.abs (1 / (S0 : R) * (1 / (S1 : R))))) (u v : Int) :
+    g.arr.get u v =
+      (dft2 (fftGrid one fs W0 W1 S0 S1 scratch) (dftAlpha dx0 dx1 du0 du1 lam z os).1 (dftAlpha dx0 dx1 du0 du1 lam z os).2
+        S0 S1 0 0 0 0 true).get u v := by
+  -- unpack the accepted call
+  by_cases hb : shapeTooBig shape (fftShape dx0 dx1 du0 du1 z wl os) os = true
+  · simp only [propagateFft, Bool.false_eq_true, if_false, hb, if_true] at h; cases h
+  by_cases ht : scratchTooSmall scratch (fftShape dx0 dx1 du0 du1 z wl os) = true
+  · simp only [propagateFft, Bool.false_eq_true, if_false, hb, ht, if_true] at h; cases h
+  simp only [propagateFft, Bool.false_eq_true, if_false, hb, ht, FftOut.ok.injEq] at h
+  obtain ⟨hl, h0, h1, _, hg⟩ := h
+  -- isotropic sampling gives a square grid
+  have hsq : S0 = S1 := by
+    rw [← h0, ← h1]; simp only [fftShape, dftAlpha, hiso]
+  subst hsq
+  have hSR : (S0 : R) ≠ 0 := Int.cast_ne_zero.mpr (by omega)
+  rw [h0, h1] at hl hg
+  have hα := reported_wavelength_isotropic hcast hmin dx0 dx1 du0 du1 z os S0 hiso hp hz hos hSR
+  rw [hl] at hα
+  have hsh : (fftGrid one fs W0 W1 S0 S0 scratch).s0 = S0 ∧ (fftGrid one fs W0 W1 S0 S0 scratch).s1 = S0 := by
+    cases scratch with
+    | none => exact ⟨rfl, rfl⟩
+    | some scr => exact foldInsert_shape fs (zeroedCorner scr S0 S0) one
+  have key := fft_path_is_unitary_dft hcast hper (fftGrid one fs W0 W1 S0 S0 scratch)
+    (by rw [hsh.1]; exact hS) (by rw [hsh.2]; exact hS) (by rw [hsh.1, hsh.2]; exact hnorm) u v
+  rw [hsh.1, hsh.2] at key
+  rw [← hg, hα]
+  exact key
+
+end fftdft
+
+/-! ### The same at `K = ℂ`, `R = ℝ`: the hypotheses hold for the real square root and the complex exponential -/
+section complex
+open Complex
+
+attribute [local instance] realLikeReal cxLikeComplex
+
+/-- **`_fft2` = unitary `dft2` with `alpha = 1/S` over ℂ**, no hypotheses beyond a non-empty grid: for every complex
+array, every grid parity and every output index. -/
+theorem fft_path_is_unitary_dft_complex (x : Arr ℂ) (hS0 : 0 < x.s0) (hS1 : 0 < x.s1) (u v : Int) :
+    (fft2c (R := ℝ) x).get u v = (dft2 x (1 / (x.s0 : ℝ)) (1 / (x.s1 : ℝ)) x.s0 x.s1 0 0 0 0 true).get u v :=
+  fft_path_is_unitary_dft (fun _ => rfl) rootPeriodic_complex x hS0 hS1
+    (norm_complex x.s0 x.s1 hS0 hS1) u v
+end complex
 
 /-! ## Known finding (open): anisotropic sampling
 
